@@ -52,7 +52,7 @@ def deep_repr(x, depth=0, seen=None):
 def measure(fam, sname):
     """observed sharing tables of one scenario: container attributes, which are re-copied by copy.copy,
     and what each label does to each attribute of the receiver-side object graph"""
-    seed = fam.seeds[sname]()
+    seed = fam.seeds[sname.split("!")[0]]()
     attrs = sorted(a for a, v in vars(seed).items() if isinstance(v, CONTAINERS))
     try:
         cp = copy.copy(seed)
@@ -62,7 +62,7 @@ def measure(fam, sname):
     eff = {}
     for lname, lab in fam.labels.items():
         catalog.reset_pool()
-        r = fam.seeds[sname]()
+        r = fam.seeds[sname.split("!")[0]]()
         before = {a: (id(vars(r)[a]), deep_repr(vars(r)[a])) for a in attrs}
         try:
             res = lab.fn(r)
@@ -169,7 +169,10 @@ def execute(job):
     tid, sid, fname, sname, hist = job
     fam = _fams()[fname]
     catalog.reset_pool()
-    seed = fam.seeds[sname]()
+    mutable = sname.endswith("!mutable")
+    seed = fam.seeds[sname.split("!")[0]]()
+    if mutable:
+        seed.immutable = False   # PT_Sharing!MCall: builder calls work on the receiver itself
     objs = [seed]
     obs = [observe.render_all(seed)]
     ev = {"tid": tid, "obs0": observe.digest(obs[0]), "steps": []}
@@ -192,6 +195,8 @@ def execute(job):
         except Exception as ex:  # noqa
             exc = type(ex).__name__
         objs.append(res if kind == "new" else None)
+        if l in ("copy", "deepcopy", "pickle") and kind == "same":
+            objs[-1] = None
         now = [observe.render_all(o) if o is not None else None for o in objs]
         for v in range(len(obs)):
             if now[v] != obs[v]:
@@ -203,6 +208,7 @@ def execute(job):
         obs = now
         ev["steps"].append({"r": r, "l": l, "res": kind, "exc": exc, "obs": [observe.digest(o) if o is not None else "-" for o in now]})
     ev["detail"] = detail
+    ev["mut"] = mutable
     return ev
 
 
@@ -290,6 +296,19 @@ def run(tier: str, prop: str = "C01") -> int:
         tid = len(jobs)
         jobs.append((tid, sid, fname, sname, h["h"]))
         pred[tid] = bool(h["ch"])
+    if prop == "C15":
+        # builders created with immutable=False (PT_Sharing!MCall): duplicate, then call on the duplicate / on the original
+        for fname in ("qb_generic", "qb_postgresql", "qb_mysql"):
+            fam = fams[fname]
+            labs = [l for l in fam.labels if "#pool" not in l and not l.startswith("auto#")]
+            for sname in ("from", "full"):
+                sid = f"{fname}.{sname}!mutable"
+                for how in ("copy", "deepcopy", "pickle"):
+                    for l in labs:
+                        for r in (1, 2):
+                            tid = len(jobs)
+                            jobs.append((tid, sid, fname, sname + "!mutable", [{"r": 1, "l": how}, {"r": r, "l": l}]))
+                            pred[tid] = False
     _t("histories parsed")
     events = run_histories(jobs, subset=["generic", "mysql", "postgresql"] if tier == "quick" else None)
     _t(f"{len(jobs)} histories executed")
@@ -316,7 +335,7 @@ def run(tier: str, prop: str = "C01") -> int:
             # (labels that pass a shared pool object are exempt: the automatic alias of an argument is the one permitted side effect)
             st["lin"] = "" if ln is None or st["res"] != "new" or any("#pool" in x for x in ln) else chain.get((sid, ln), "")
     # 3. judge
-    slim = [{"tid": e["tid"], "obs0": e["obs0"], "steps": [{k: s[k] for k in ("r", "l", "res", "obs", "lin")} for s in e["steps"]]} for e in events]
+    slim = [{"tid": e["tid"], "obs0": e["obs0"], "mut": bool(e.get("mut")), "steps": [{k: s[k] for k in ("r", "l", "res", "obs", "lin")} for s in e["steps"]]} for e in events]
     results = tlc.judge_shards("J_Frozen", "INIT Init\nNEXT Next\n", slim, shard=max(2000, len(slim) // 16 + 1), heap="3g")
     rep.add_tlc(results)
     _t("judged")
@@ -339,7 +358,7 @@ def run(tier: str, prop: str = "C01") -> int:
         _, sid, fname, sname, hist = jobs[tid]
         for step, victim, kind in bad[tid]:
             if kind in ("dup-raises", "dup-differs"):
-                cls = type(_fams()[fname].seeds[sname]()).__name__
+                cls = type(_fams()[fname].seeds[sname.split("!")[0]]()).__name__
                 rep.discrepancy([[kind, cls, hist[step - 1]["l"]]], {"scenario": sid, "history": hist, "step": step,
                                                                       "exc": e["steps"][step - 1]["exc"]},
                                 what="duplicate raises or is not observed like its original")
@@ -393,7 +412,7 @@ def fam_label_owner(fname, sname, label):
     if label not in fam.labels:
         return [fname.split("_")[0], label]
     try:
-        return list(catalog.owner(fam.seeds[sname](), fam.labels[label].meth))
+        return list(catalog.owner(fam.seeds[sname.split("!")[0]](), fam.labels[label].meth))
     except Exception:  # noqa
         return [fname.split("_")[0], label]
 
